@@ -13,6 +13,7 @@ from harness import common as C  # noqa: E402
 MODULES = {
     "C01": "tok", "C02": "tok", "C03": "tok", "C04": "tok", "C08": "tok", "C20": "tok",
     "C16": "region", "C17": "region", "C11": "source", "C05": "split", "C09": "split", "C18": "wavio", "C07": "energy", "C06": "duration", "C10": "reader", "C19": "reader",
+    "C12": "workers", "C13": "workers", "C14": "workers", "C15": "cli",
 }
 
 
